@@ -524,7 +524,25 @@ func c14Corrupt(c *core.C) {
 		toks = append([]string{}, toks...)
 		for k, n := 0, 1+r.Intn(3); k < n && len(toks) > 0; k++ {
 			j := r.Intn(len(toks))
-			switch r.Intn(6) {
+			switch r.Intn(8) {
+			case 6, 7:
+				// empty a pair of parentheses: "( args )" -> "( )", e.g. a method call or a
+				// predicate that loses its arguments
+				open := -1
+				for d := 0; d < len(toks); d++ {
+					if k := (j + d) % len(toks); toks[k] == "(" {
+						open = k
+						break
+					}
+				}
+				if open >= 0 {
+					for e := open + 1; e < len(toks); e++ {
+						if toks[e] == ")" {
+							toks = append(toks[:open+1], toks[e:]...)
+							break
+						}
+					}
+				}
 			case 0:
 				toks = append(toks[:j], toks[j+1:]...)
 			case 1:
